@@ -127,7 +127,7 @@ fn main() {
     let (splice_per_pos, insert) = run.tier.pick((4, false), (usize::MAX, true));
     let all: Vec<Sentence> = sentences(depth)
         .into_iter()
-        .filter(|s| s.family.starts_with("kml.") || s.family == "meta.export")
+        .filter(|s| s.family.starts_with("kml.") || s.family == "meta.export" || s.family.starts_with("neg."))
         .collect();
     let n_sentences = all.len();
     let foreign = foreign();
